@@ -15,6 +15,8 @@ ASSUMPTIONS = ["nodes have at least K bases (num_kmers = len - K + 1 does not un
 def run(F, rep):
     rep.engines.update(["E2-DT", "affine", "E1"])
     rep.run(dt_seq.node_kmer_iter_tables, F, rep, "C18.1")
+    # the same contract end to end, whatever the iterator's fields are: scripted interleavings on monomorphic instances
+    rep.run(lemmas.node_kmer_iter_e2e, F, rep, "C18.7", quick=(rep.tier != "thorough"))
     # the k-mer reads the iterator relies on (first k-mer in into_iter, re-synchronisation after a long skip in nth): the view remap of
     # DnaStringSlice::get_kmer and the block walk of DnaString::get_kmer (every offset for the k-mer types wider than one word)
     rep.run(dt_seq.slice_view_tables, F, rep, "C18.6")
